@@ -1366,6 +1366,17 @@ func c13RunValueCase(w *fw.W, c *c13RT, idx int) {
 		w.SetAdd("c13_key_classes", kl)
 	}
 
+	// ---- 0. histories (c13_history.go) are run on a quarter of the values;
+	// whether the value is equal? to a fresh twin is asked before any dump
+	rh := w.RNG(idx, "history")
+	history, preEqual := rh.Chance(1, 4), false
+	if history {
+		c.set("c13-v4", c13BuildGo(v, nil, false))
+		te, ev := c.eval("(equal? c13-v c13-v4)")
+		w.Eval(1)
+		preEqual = !te.IsErr && ev.Type == lisp.LSymbol && ev.Str == "true"
+	}
+
 	// ---- 1. dump: success, determinism, forms agree
 	dump := func(expr string) (string, bool) {
 		t, lv := c.eval(expr)
@@ -1526,6 +1537,10 @@ func c13RunValueCase(w *fw.W, c *c13RT, idx int) {
 			}
 		}
 		w.CoverKey(ckBase + "|" + mode + "|" + strings.Join(c13Cap(classes, 4), ","))
+	}
+	// ---- 6. state carried across dumps
+	if history {
+		c13ValueHistory(w, c, rh, v, st, shape, d1, preEqual, detail)
 	}
 	if w.WantSample() && shape == "nested" && !v.leaf() && st.nodes > 3 {
 		w.Sample(map[string]any{"kind": "value", "value": model, "dump": c13Trunc(d1, 400), "dump_string_numbers": c13Trunc(dsn, 400)})
